@@ -400,7 +400,7 @@ def run_case(case):
             if not m.vars:
                 continue
             k = list(m.vars)[a % len(m.vars)]
-            fresh = [v for v in VARS + ["e", "f"] if v not in m.vars]
+            fresh = [v for v in VARS + ["e", "f", "g2", "h2", "i2", "j2"] if v not in m.vars]     # (at most six variables can exist: never empty)
             new = fresh[b % len(fresh)]
             if c % 2:
                 r = lib(lambda: ds.rename_keys({k: new}, inplace=False), what=what + " rename_keys copy", sig=sig)
